@@ -251,13 +251,22 @@ func runC09(t *testing.T, tier string) int {
 			// context is cancelled (what a commit that lost the race against the
 			// cancellation rollback of database/sql looks like)
 			kinds := []string{"error", "cancel", "txdone"}
+			// (the context of a faulted run stays alive until its retry is over, like the
+			// long-lived context of a background service: database/sql rolls a transaction
+			// back when its context ends, which would hide one that the code left open)
+			var pendingCancel context.CancelFunc
 			runFaulted := func(k int, kind string) (model.Obs, []string, *world.Snapshot) {
+				if pendingCancel != nil {
+					pendingCancel()
+					pendingCancel = nil
+					synctest.Wait()
+				}
 				if err := w.Restore(prepared); err != nil {
 					t.Fatal(err)
 				}
 				r.M = m0.Clone()
 				ctx, cancel := context.WithCancel(context.Background())
-				defer cancel()
+				pendingCancel = cancel
 				r.Ctx = ctx
 				n := 0
 				fired := false
@@ -325,6 +334,9 @@ func runC09(t *testing.T, tier string) int {
 					}
 					o2 := r.Exec(call2)
 					synctest.Wait()
+					if os.Getenv("VERIF_VERBOSE") != "" {
+						fmt.Printf("   faulted run: err=%q; retry: err=%q\n", o.Err, o2.Err)
+					}
 					retries++
 					after2, _ := w.Dump()
 					if o2.Err != "" {
@@ -332,10 +344,20 @@ func runC09(t *testing.T, tier string) int {
 					} else if d := final.EquivModuloIDs(after2, 50*time.Millisecond); d != "" {
 						sink.add(report.Viol{Property: "C09", Check: "C09/" + cs.name, Rule: "retry-differs", Text: desc + ": after the retry the tables differ from the fault-free run: " + d, Trace: []string{cs.name, fmt.Sprint(k), kind}})
 					}
+					if pendingCancel != nil {
+						pendingCancel()
+						pendingCancel = nil
+						synctest.Wait()
+					}
 					if tier == "thorough" && kind == "error" {
 						// second fault on the retry at every point k2, then a clean retry
 						for k2 := range pts {
 							o3, _, after3 := runFaulted(k2, "error")
+							if pendingCancel != nil {
+								pendingCancel()
+								pendingCancel = nil
+								synctest.Wait()
+							}
 							points++
 							if o3.Err == "" || prepared.DiffIgnoring(after3, cs.ignore...) != "" {
 								sink.add(report.Viol{Property: "C09", Check: "C09/" + cs.name, Rule: "partial-effect", Text: fmt.Sprintf("%s then again at point %d: err=%q diff=%s", desc, k2, o3.Err, prepared.DiffIgnoring(after3, cs.ignore...)), Trace: []string{cs.name, fmt.Sprint(k), fmt.Sprint(k2)}})
@@ -343,6 +365,11 @@ func runC09(t *testing.T, tier string) int {
 						}
 					}
 				}
+			}
+			if pendingCancel != nil {
+				pendingCancel()
+				pendingCancel = nil
+				synctest.Wait()
 			}
 		}
 	})
